@@ -129,6 +129,42 @@ pub fn run(p: &Prog, cfg: &Cfg, rep: &mut Report) {
             None => {}
         }
     }
+    // the same for a second instantiation of a generic contract, asked for in the same process,
+    // and once more for the first one (a table must not depend on which instantiation asked first)
+    if let Some(alt) = p.extra::<crate::ops::AltSchemas>("alt_schemas") {
+        rep.evaluations += 1;
+        rep.class("union:second-instantiation");
+        rep.nontrivial(&(&p.model.id, "alt"));
+        let f = alt.0;
+        match std::panic::catch_unwind(f).unwrap_or_else(|_| Err("panicked".to_string())) {
+            Ok((parts, w)) => {
+                let mut alt_union: BTreeMap<String, Value> = BTreeMap::new();
+                for t in &parts {
+                    for (k, v) in t {
+                        // (the helper variant of generic message types is no query of any part: several
+                        // parts carry one under the same key, with unrelated placeholder types)
+                        if !k.contains("phantom") {
+                            alt_union.insert(k.clone(), j(v));
+                        }
+                    }
+                }
+                let got: BTreeMap<String, Value> = w.iter().filter(|(k, _)| !k.contains("phantom")).map(|(k, v)| (k.clone(), j(v))).collect();
+                if got != alt_union {
+                    let differing: Vec<&String> = alt_union.keys().filter(|k| got.get(*k) != alt_union.get(*k)).collect();
+                    fail!("union-alt", "contract-level response table of a second instantiation of the generic contract is not the union of that instantiation's part tables", json!({"differing_queries": differing, "contract_level": got.keys().collect::<Vec<_>>(), "first_difference": differing.first().map(|k| json!({"contract_level": got.get(*k), "union_of_parts": alt_union.get(*k)}))}));
+                }
+            }
+            Err(e) => {
+                fail!("table-error", "response_schemas() of a second instantiation fails", json!({"error": e}));
+            }
+        }
+        if let Some(Some(Ok(t))) = p.wrappers.get(&Kind::Query).map(|w| w.response_schemas()) {
+            let again: BTreeMap<String, Value> = t.iter().filter(|(k, _)| !(k.contains("phantom") && !union.contains_key(*k))).map(|(k, v)| (k.clone(), j(v))).collect();
+            if again != union {
+                fail!("union-again", "contract-level response table changed after another instantiation asked for its table", json!({"contract_level": again.keys().collect::<Vec<_>>()}));
+            }
+        }
+    }
     // contract-level JSON schema = any-of of the parts' schemas
     for kind in Kind::ENUMS {
         let Some(wops) = p.wrappers.get(&kind) else { continue };
